@@ -22,7 +22,7 @@ TRUSTED = TRUSTED_M1
 # ------------------------------------------------------------------------------------------------ generation
 def gen(seed, index):
     rng = rng_for(PID, seed, index)
-    G = g.G(rng)
+    G = g.G(rng, tags=True, tempi=True)      # containers carry tags and tempi (opaque ids in the model)
     kind = index % 3 if rng.random() < 0.9 else rng.randrange(3)
     if kind == 0:
         for _ in range(3):  # mostly events in which some time is inside every voice
@@ -60,6 +60,10 @@ def gen(seed, index):
         tgt = max(0, tgt)
     else:
         tgt = d + rng.choice([1, G.unit, 2 * G.unit, 3 * G.unit])
+    if rng.random() < 0.12:
+        return ["op", t, ["extend_until", 1, "none"]]      # no target: a simultaneity equalises its voices, a sequence rejects
+    if rng.random() < 0.08:
+        return ["op", t, ["extend_until", 0, tgt]]         # prolong_chronon=False: leaf voices are not prolonged
     return ["op", t, ["extend_until", 1, tgt]]
 
 
@@ -289,14 +293,21 @@ def oracle_extend(t, d, io):
 
 
 def oracle(case, io, mo):
+    from props.m1common import alias_failure as _af
+    if case[0] != "hist" and _af(io):
+        return _af(io)
     t = sp.norm(case[1])
     op = case[2]
     if op[0] == "split_child_at":
         return oracle_split_child(t, int(op[1]), io)
     if op[0] == "sequentialize":
         return oracle_sequentialize(t, io)
+    if op[0] == "extend_until" and op[1] in (0, "0"):
+        return None     # prolong_chronon=False: decided by the correspondence (a leaf voice that would need prolonging is an error)
     if op[0] == "extend_until" and op[2] != "none":
         return oracle_extend(t, int(op[2]), io)
+    if op[0] == "extend_until" and t[0] == "P":
+        return oracle_extend(t, sp.dur(t), io)      # no target: the voices are made as long as the longest one
     return None
 
 
